@@ -468,6 +468,65 @@ func genMqBacklogFail(r *rng.R) mqCase {
 	return c
 }
 
+// mixed builders: a queued builder whose blocks all belong to request 1 and which also carries block-less content
+// of request 2 (a final status, an extension, a link whose block is missing) with its own subscriber, queued
+// behind a message of request 1 that then fails (send and reconnect fail, retries run out, or the shutdown drain):
+// request 1 is scrubbed out of the builder, request 2's content must still be sent and reported
+func genMqMixedScrub(r *rng.R) mqCase {
+	var c mqCase
+	c.Univ = []uint64{1, 2, 3}
+	link := uint64(1)
+	c.Labels = append(c.Labels, mqLabel{K: "build", R: 1, Blocks: []mqBlock{{L: link, Size: uint64(r.Range(1, 2000)), Has: true}}})
+	c.Labels = append(c.Labels, mqLabel{K: "net", OK: true}) // connected: held in SendMsg
+	viaDrain := r.P(1, 4)
+	if viaDrain {
+		// a second message of request 1 ahead of the mixed builder: the drain fails it first
+		link++
+		c.Labels = append(c.Labels, mqLabel{K: "build", R: 1, Blocks: []mqBlock{{L: link, Size: uint64(r.Range(300000, 400000)), Has: true}}})
+		link++
+		c.Labels = append(c.Labels, mqLabel{K: "build", R: 1, Blocks: []mqBlock{{L: link, Size: uint64(r.Range(300000, 400000)), Has: true}}})
+	} else {
+		for i := r.Range(1, 2); i > 0; i-- {
+			link++
+			c.Labels = append(c.Labels, mqLabel{K: "build", R: 1, Blocks: []mqBlock{{L: link, Size: uint64(r.Range(1, 3000)), Has: true}}})
+		}
+	}
+	// block-less content of other requests into the same builder
+	for i := r.Range(1, 2); i > 0; i-- {
+		l := mqLabel{K: "build", R: uint64(r.Range(2, 3))}
+		switch r.Intn(4) {
+		case 0:
+			l.Status = "finish"
+		case 1:
+			l.Status = "pause"
+		case 2:
+			l.Ext = r.Range(1, 200)
+		default:
+			link++
+			l.Blocks = []mqBlock{{L: link, Size: 100, Has: false}}
+		}
+		c.Labels = append(c.Labels, l)
+	}
+	if r.P(1, 3) {
+		link++
+		c.Labels = append(c.Labels, mqLabel{K: "build", R: 1, Blocks: []mqBlock{{L: link, Size: uint64(r.Range(1, 3000)), Has: true}}})
+	}
+	switch {
+	case viaDrain:
+		c.Labels = append(c.Labels, mqLabel{K: "shutdown"}, mqLabel{K: "net", OK: r.P(1, 2)})
+	case r.P(1, 2):
+		c.Labels = append(c.Labels, mqLabel{K: "net", OK: false}, mqLabel{K: "net", OK: false})
+	default:
+		for i := 0; i < 3; i++ {
+			c.Labels = append(c.Labels, mqLabel{K: "net", OK: false}, mqLabel{K: "net", OK: true})
+		}
+	}
+	for i := 0; i < 6; i++ {
+		c.Labels = append(c.Labels, mqLabel{K: "net", OK: true})
+	}
+	return c
+}
+
 func genMqCase(r *rng.R) mqCase {
 	nreq := r.Range(1, 3)
 	var c mqCase
@@ -595,6 +654,9 @@ func driveMsgQueue(c *ctx) error {
 		}
 		for i := 0; i < n/16; i++ {
 			cases = append(cases, res{mc: genMqBacklogFail(c.r.Fork()), tag: "backlog-fail"})
+		}
+		for i := 0; i < n/16; i++ {
+			cases = append(cases, res{mc: genMqMixedScrub(c.r.Fork()), tag: "mixed-scrub"})
 		}
 	}
 	// run in parallel: each case has its own queue, allocator and network
